@@ -27,6 +27,18 @@ with the pattern's text), literal `str` separator, `"lit" in …` test and compa
 `(what, text, flags or detail)`.  So a regex call that is added to, or removed from, the modelled code breaks the
 obligation as well, while moving a test into a helper method, re-ordering tests, negating one (`!=` is reported as
 `==`, `not in` as `in`), hoisting a pattern into a compiled constant or renaming a constant / local variable does not.
+
+**Scan sets as revised.**  The lists below contain only what identifies the regex / separator a scanner was written
+for: regex-engine calls (`re.*`, methods of compiled patterns, the `re_*` helpers of the package) with the pattern in
+*canonical form* — canonical verbose form and no VERBOSE flag for a pattern compiled with `re.VERBOSE`; group names
+removed (`(?P<n>…)` is written `(…)`, `(?P=n)` by number); redundant escapes removed (`\:` is `:`); a pattern handed to a
+same-file helper as an argument, or built from a local name that ranges over a constant collection, reported once per
+value; a search that cannot fail (`.*`) not reported — with the flags and, for `re.sub`, the replacement; and the
+separator arguments of `str.split / rsplit / partition / rpartition / join / replace / strip / splitlines`.  The literal
+tests (`"lit" in …`, comparisons with string literals and their subscripts, `str.startswith / endswith / find …`) that
+earlier versions of these lists contained are now the INFORMATIONAL definitions `Gen.rx…Info`: no theorem is about
+them, so reading a regex group into a local, hoisting a `.split()`, merging branches or renaming a group does not break
+an obligation.  Where the text above speaks of such a test as part of a scan set, read: part of `…Info`.
 -/
 namespace Ccp.RxC20
 
@@ -35,36 +47,23 @@ source for which the model contains a hand-written scanner has the text that sca
 are named `regexes_as_modelled__<definition>`, so that a failing build names the constant that was edited.) -/
 theorem regexes_as_modelled :
     Gen.rxAsaNames =
-      [(".re_match_typed", "^\\s*name\\s+(\\d+\\.\\d+\\.\\d+\\.\\d+)\\s+(\\S+)", ""),
-       ("==", "asa", "")] ∧
+      [(".re_match_typed", "^\\s*name\\s+(\\d+\\.\\d+\\.\\d+\\.\\d+)\\s+(\\S+)", "")] ∧
     Gen.rxAsaObjNet =
-      [(".re_match_typed", "^\\s*object-group\\s+network\\s+(\\S+)", ""),
-       ("==", "asa", "")] ∧
+      [(".re_match_typed", "^\\s*object-group\\s+network\\s+(\\S+)", "")] ∧
     Gen.rxAsaAcl =
-      [(".re_match_typed", "^\\s*access-list\\s+(\\S+)", ""),
-       ("==", "asa", "")] ∧
+      [(".re_match_typed", "^\\s*access-list\\s+(\\S+)", "")] ∧
     Gen.rxAsaGroupInit =
       [(".re_match_typed", "^object-group\\s+network\\s+(\\S+)", "")] ∧
     Gen.rxAsaGroupIsObjectFor =
-      [("lit in", "object-group network ", "[0:21].lower()")] ∧
+      [] ∧
     Gen.rxAsaGroupNetworkStrings =
-      [("==", "255.255.255.255", "['netmask']"),
-       ("lit in", "description ", ""),
-       ("re.search", "(?:(^\\s*network-object\\s+host\\s+(?P<host>\\S+))|(^\\s*network-object\\s+(?P<network>\\S+)\\s+(?P<netmask>\\d+\\.\\d+\\.\\d+\\.\\d+))|(^\\s*group-object\\s+(?P<groupobject>\\S+)))", "VERBOSE")] ∧
+      [("re.search", "(?:(^\\s*network-object\\s+host\\s+(\\S+))|(^\\s*network-object\\s+(\\S+)\\s+(\\d+\\.\\d+\\.\\d+\\.\\d+))|(^\\s*group-object\\s+(\\S+)))", "")] ∧
     Gen.rxAsaNameInit =
-      [("re.search", "^name\\s+(?P<addr>\\d+\\.\\d+\\.\\d+\\.\\d+)\\s(?P<name>\\S+)", "VERBOSE")] ∧
+      [("re.search", "^name\\s+(\\d+\\.\\d+\\.\\d+\\.\\d+)\\s(\\S+)", "")] ∧
     Gen.rxAsaNameIsObjectFor =
-      [("lit in", "name ", "[0:5].lower()")] ∧
+      [] ∧
     Gen.rxL4ObjectInit =
-      [("==", "asa", ""),
-       ("==", "tcp", ""),
-       ("==", "udp", ""),
-       ("lit in", "eq ", ""),
-       ("lit in", "gt ", ""),
-       ("lit in", "lt ", ""),
-       ("lit in", "neq ", ""),
-       ("lit in", "range ", ""),
-       ("re.search", "^\\S+$", ""),
+      [("re.search", "^\\S+$", ""),
        ("re.split", "\\s+", "")] := by
   refine ⟨?regexes_as_modelled__rxAsaNames, ?regexes_as_modelled__rxAsaObjNet, ?regexes_as_modelled__rxAsaAcl,
     ?regexes_as_modelled__rxAsaGroupInit, ?regexes_as_modelled__rxAsaGroupIsObjectFor,
